@@ -39,11 +39,15 @@ mod verif_nx_mlstring {
         out
     }
 
-    fn check(body: &str, base: &str, crlf: bool, ind: u16, cont: u16, count: &mut u64) {
+    fn check(body: &str, base: &str, crlf: bool, hard: bool, ind: u16, cont: u16, count: &mut u64) {
         let original = format!("'''\n{}\n{}'''", body, base);
-        let rs = ReconstructionSettings::new(if crlf { LineEnding::Crlf } else { LineEnding::Lf }, TabKind::Soft, 2, 3);
+        let rs = ReconstructionSettings::new(if crlf { LineEnding::Crlf } else { LineEnding::Lf }, if hard { TabKind::Hard } else { TabKind::Soft }, if hard { 1 } else { 2 }, 3);
         let nl = if crlf { "\r\n" } else { "\n" };
-        let new_indent = format!("{}{}", "  ".repeat(ind as usize), "   ".repeat(cont as usize));
+        let new_indent = if hard {
+            format!("{}{}", "\t".repeat(ind as usize), "\t\t\t".repeat(cont as usize))
+        } else {
+            format!("{}{}", "  ".repeat(ind as usize), "   ".repeat(cont as usize))
+        };
         let sf = StringFormatter { recon_settings: &rs };
         let fmt = FormattingData::verif_nx_new(false, 1, ind, cont, 0);
         let got = sf.try_rewrite_string(&original, &fmt, base);
@@ -69,7 +73,7 @@ mod verif_nx_mlstring {
         match (ok, &got) {
             (false, None) => {}
             (true, Some(g)) => {
-                assert!(*g == exp, "OB mlstring/value_preserved: interior lines keep their value, indentation and terminators are rewritten\n input={:?} base={:?} crlf={} ind={} cont={}\n got={:?}\n exp={:?}", original, base, crlf, ind, cont, g, exp);
+                assert!(*g == exp, "OB mlstring/value_preserved: interior lines keep their value, indentation and terminators are rewritten\n input={:?} base={:?} crlf={} use_tabs={} ind={} cont={}\n got={:?}\n exp={:?}", original, base, crlf, hard, ind, cont, g, exp);
                 // fixpoint: the result, read again with its own base indentation, is unchanged
                 let again = sf.try_rewrite_string(g, &fmt, &new_indent);
                 assert!(again.as_deref() == Some(g.as_str()), "OB mlstring/fixpoint: re-indenting a re-indented literal changes nothing\n input={:?} first={:?} second={:?}", original, g, again);
@@ -110,10 +114,10 @@ mod verif_nx_mlstring {
     #[test]
     fn verif_nx_mlstring_rewrite() {
         let mut n = 0u64;
-        for base in ["", " ", "  ", "\t", " \t"] {
+        for base in ["", " ", "  ", "\t", " \t", "   "] {
             enumerate(5, &mut |body| {
-                for (crlf, ind, cont) in [(false, 0u16, 0u16), (true, 1, 0), (false, 1, 1), (true, 0, 2)] {
-                    check(body, base, crlf, ind, cont, &mut n);
+                for (crlf, hard, ind, cont) in [(false, false, 0u16, 0u16), (true, false, 1, 0), (false, false, 1, 1), (true, true, 1, 0), (false, true, 2, 0), (false, true, 0, 1)] {
+                    check(body, base, crlf, hard, ind, cont, &mut n);
                 }
             });
         }
